@@ -10,8 +10,8 @@
 
   `AsIs cfg` says that the configuration is the code as it is: the variant flags and backup thresholds are the facts
   regenerated from the source (`Model/GeneratedC08.lean`); `generated_is_fixed` / `generated_thr_ok` tie them to what the
-  proofs need, so reverting one of the two `fix:` commits (or dropping the `task not in backups` guard) makes this file
-  fail to compile.
+  proofs need, so reverting one of the `fix:` commits (start_times on batch refill, superseded twins, empty first batch,
+  retries on the processes executor) or dropping the `task not in backups` guard makes this file fail to compile.
 -/
 import CubedModel.Proofs.MapUnordered
 
@@ -45,15 +45,9 @@ theorem asIs_isFixed (cfg : Cfg) (h : AsIs cfg) : IsFixed cfg :=
   ⟨h.1.trans generated_is_fixed, by rw [h.2.1]; exact generated_thr_ok, h.2.2⟩
 
 /-- every reachable state satisfies the invariant (with the work list `w` of the round in which an exception left) -/
-theorem reach (cfg : Cfg) (ok : Nat → Bool) (n : Nat) (t0 : Int) (rounds : List Round) (h : AsIs cfg)
-    (hne : cfg.batchSize = none ∨ 0 < n) : Post cfg ok n rounds (run cfg ok n t0 rounds) :=
-  run_post cfg ok n t0 rounds (asIs_isFixed cfg h) hne
-
-/-- when the hypothesis "input non-empty or no batching" fails the generator dies before creating any future -/
-theorem run_empty_batched (cfg : Cfg) (ok : Nat → Bool) (t0 : Int) (rounds : List Round) (k : Nat)
-    (hb : cfg.batchSize = some (k + 1)) :
-    run cfg ok 0 t0 rounds = .finished (.crash "StopIteration") St.empty := by
-  simp [run, init, hb, batched, batchedAux]
+theorem reach (cfg : Cfg) (ok : Nat → Bool) (n : Nat) (t0 : Int) (rounds : List Round) (h : AsIs cfg) :
+    Post cfg ok n rounds (run cfg ok n t0 rounds) :=
+  run_post cfg ok n t0 rounds (asIs_isFixed cfg h)
 
 /-! ## concrete instances used by the `example`s below -/
 
@@ -78,32 +72,25 @@ def refillRounds : List Round :=
 
 /-! ## (1) no exception other than a task's own -/
 
-/-- full statement: whatever the environment does, the generator never ends with an exception that is not a task's. -/
-def C08_no_crash : Prop :=
-  ∀ (cfg : Cfg) (ok : Nat → Bool) (n : Nat) (t0 : Int) (rounds : List Round), AsIs cfg →
-    ∀ o st, run cfg ok n t0 rounds = .finished o st → ∀ why, o ≠ .crash why
-
-/-- It holds whenever the input is non-empty or batching is off (`batch_size = 0`, a `ValueError` of `batched`, is excluded
-by `AsIs`).  Dictionary lookups (`start_times[task]`, `tasks[task]`, `end_times`/`start_times` in `should_launch_backup`)
-never miss, for any option combination — in particular `use_backups` with `batch_size` (the first `fix:`). -/
-theorem C08_no_crash_partial (cfg : Cfg) (ok : Nat → Bool) (n : Nat) (t0 : Int) (rounds : List Round) (h : AsIs cfg)
-    (hne : cfg.batchSize = none ∨ 0 < n) :
+/-- Whatever the environment does, the generator never ends with an exception that is not a task's: dictionary lookups
+(`start_times[task]`, `tasks[task]`, `end_times`/`start_times` in `should_launch_backup`) never miss, for any option
+combination — in particular `use_backups` with `batch_size` (first `fix:`) — and an empty input is fine with or without
+batching (third `fix:`).  Full strength: no hypothesis on the input.  (`batch_size = 0`, a `ValueError` of `batched`, is
+excluded by `AsIs`.) -/
+theorem C08_no_crash (cfg : Cfg) (ok : Nat → Bool) (n : Nat) (t0 : Int) (rounds : List Round) (h : AsIs cfg) :
     ∀ o st, run cfg ok n t0 rounds = .finished o st → ∀ why, o ≠ .crash why := by
   intro o st hr why ho
-  have := reach cfg ok n t0 rounds h hne
+  have := reach cfg ok n t0 rounds h
   rw [hr, ho] at this
   exact this
 
-/-- the excluded corner is real: `batch_size = 2` on an empty input ends with `StopIteration` (→ `RuntimeError`) -/
-def emptyBatched : Cfg := { useBackups := false, batchSize := some 2 }
-
-theorem C08_no_crash_fails : ¬ C08_no_crash := by
-  intro h
-  exact h emptyBatched (fun _ => true) 0 0 [] ⟨rfl, rfl, by decide⟩ _ _
-    (run_empty_batched emptyBatched _ 0 [] 1 rfl) "StopIteration" rfl
+/-- an operation with zero tasks under `batch_size` -/
+def emptyBatched : Cfg := { useBackups := true, batchSize := some 2 }
+example : AsIs emptyBatched := ⟨rfl, rfl, by decide⟩
+example : outcomeOf (run emptyBatched (fun _ => true) 0 0 []) = some (.done []) := by decide
 
 /-- the hypotheses are satisfiable, and the conclusion is not vacuous: these runs do end -/
-example : AsIs refillCfg ∧ (refillCfg.batchSize = none ∨ 0 < 20) := ⟨⟨rfl, rfl, by decide⟩, Or.inr (by decide)⟩
+example : AsIs refillCfg := ⟨rfl, rfl, by decide⟩
 example : outcomeOf (run exCfg (fun _ => true) 3 0 exRounds) = some (.done [1, 0, 2]) := by decide
 example : outcomeOf (run refillCfg (fun _ => true) 20 0 refillRounds) = none := by decide   -- still running, no KeyError
 
@@ -112,10 +99,10 @@ example : outcomeOf (run refillCfg (fun _ => true) 20 0 refillRounds) = none := 
 /-- When the generator finishes normally, the inputs of the yielded results are a permutation of the inputs: every input
 exactly once — nothing dropped, nothing delivered twice (the second `fix:`). -/
 theorem C08_one_result_per_input (cfg : Cfg) (ok : Nat → Bool) (n : Nat) (t0 : Int) (rounds : List Round) (h : AsIs cfg)
-    (hne : cfg.batchSize = none ∨ 0 < n) (res : List Nat) (st : St)
+    (res : List Nat) (st : St)
     (hr : run cfg ok n t0 rounds = .finished (.done res) st) :
     (res.map st.tasks).Perm ((List.range n).map some) := by
-  have hp := reach cfg ok n t0 rounds h hne
+  have hp := reach cfg ok n t0 rounds h
   rw [hr] at hp
   obtain ⟨hi, hres, hany, hbat⟩ := hp
   subst hres
@@ -165,10 +152,10 @@ theorem filterMap_getElem?_range {α : Type} (l : List α) : (List.range l.lengt
 /-- the same in terms of input *values*: for any input list, the values of the inputs whose results were yielded are a
 permutation of the input list. -/
 theorem C08_one_result_per_input_values {α : Type} (inputs : List α) (cfg : Cfg) (ok : Nat → Bool) (t0 : Int)
-    (rounds : List Round) (h : AsIs cfg) (hne : cfg.batchSize = none ∨ 0 < inputs.length) (res : List Nat) (st : St)
+    (rounds : List Round) (h : AsIs cfg) (res : List Nat) (st : St)
     (hr : run cfg ok inputs.length t0 rounds = .finished (.done res) st) :
     (res.filterMap (fun f => (st.tasks f).bind (fun p => inputs[p]?))).Perm inputs := by
-  have hperm := C08_one_result_per_input cfg ok inputs.length t0 rounds h hne res st hr
+  have hperm := C08_one_result_per_input cfg ok inputs.length t0 rounds h res st hr
   have := hperm.filterMap (fun o : Option Nat => o.bind (fun p => inputs[p]?))
   rw [List.filterMap_map, List.filterMap_map] at this
   have h2 : (List.range inputs.length).filterMap ((fun o : Option Nat => o.bind (fun p => inputs[p]?)) ∘ some) = inputs :=
@@ -183,10 +170,10 @@ example : outcomeOf (run exCfg (fun _ => true) ["a", "b", "c"].length 0 exRounds
 /-- At every moment (running, finished, or at the raise) every yielded result is the result of a future that completed
 successfully and was created for an input `p < n` — an input is never treated as done without a success. -/
 theorem C08_results_sound (cfg : Cfg) (ok : Nat → Bool) (n : Nat) (t0 : Int) (rounds : List Round) (h : AsIs cfg)
-    (hne : cfg.batchSize = none ∨ 0 < n) (f : Nat) (hf : f ∈ (stateOf (run cfg ok n t0 rounds)).emitted) :
+    (f : Nat) (hf : f ∈ (stateOf (run cfg ok n t0 rounds)).emitted) :
     ok f = true ∧ (stateOf (run cfg ok n t0 rounds)).done f = true ∧
       ∃ p, p < n ∧ (stateOf (run cfg ok n t0 rounds)).tasks f = some p := by
-  have hp := reach cfg ok n t0 rounds h hne
+  have hp := reach cfg ok n t0 rounds h
   have key : ∀ st w, Inv cfg ok n st w → f ∈ st.emitted → ok f = true ∧ st.done f = true ∧ ∃ p, p < n ∧ st.tasks f = some p := by
     intro st w hi hf
     refine ⟨(hi.e3 f hf).1, (hi.e3 f hf).2, ?_⟩
@@ -221,11 +208,11 @@ theorem C08_raises_iff_fatal (cfg : Cfg) (ok : Nat → Bool) (n : Nat) (rd : Rou
 /-- Run level: if the generator raises, it raises the exception of a future `f` that failed, no submission of `f`'s input
 has succeeded (each other one is done and failed), and no result for that input was delivered. -/
 theorem C08_raises_only_fatal (cfg : Cfg) (ok : Nat → Bool) (n : Nat) (t0 : Int) (rounds : List Round) (h : AsIs cfg)
-    (hne : cfg.batchSize = none ∨ 0 < n) (f : Nat) (st : St)
+    (f : Nat) (st : St)
     (hr : run cfg ok n t0 rounds = .finished (.raised f) st) :
     ok f = false ∧ st.done f = true ∧ (∀ e, e ∈ st.emitted → st.tasks e ≠ st.tasks f) ∧
       ∃ rd, rd ∈ rounds ∧ ∀ g, g < st.nextId → st.tasks g = st.tasks f → g ≠ f → (isDone st rd g = true ∧ ok g = false) := by
-  have hp := reach cfg ok n t0 rounds h hne
+  have hp := reach cfg ok n t0 rounds h
   rw [hr] at hp
   obtain ⟨w, rd, hrd, hi, he⟩ := hp
   have hx := (C08_raises_iff_fatal cfg ok n rd st f w h hi _).mp he
@@ -244,17 +231,16 @@ example : outcomeOf (run twinCfg (fun f => f != 10) 10 0 twinRounds) = some (.do
 
 /-- … and the generator ends in no other way: done, or the error of a task. -/
 theorem C08_ends_done_or_task_error (cfg : Cfg) (ok : Nat → Bool) (n : Nat) (t0 : Int) (rounds : List Round) (h : AsIs cfg)
-    (hne : cfg.batchSize = none ∨ 0 < n) (o : Outcome) (st : St) (hr : run cfg ok n t0 rounds = .finished o st) :
+    (o : Outcome) (st : St) (hr : run cfg ok n t0 rounds = .finished o st) :
     (∃ res, o = .done res) ∨ (∃ f, o = .raised f ∧ ok f = false) := by
   cases o with
   | done res => exact Or.inl ⟨res, rfl⟩
-  | raised f => exact Or.inr ⟨f, rfl, (C08_raises_only_fatal cfg ok n t0 rounds h hne f st hr).1⟩
-  | crash y => exact absurd rfl (C08_no_crash_partial cfg ok n t0 rounds h hne _ st hr y)
+  | raised f => exact Or.inr ⟨f, rfl, (C08_raises_only_fatal cfg ok n t0 rounds h f st hr).1⟩
+  | crash y => exact absurd rfl (C08_no_crash cfg ok n t0 rounds h _ st hr y)
 
 /-! ## (5) at most two submissions per input -/
 
-/-- At every moment every input has been submitted at most twice (the original and at most one backup) — with no
-hypothesis on the input (when the generator dies on an empty batched input it has created nothing). -/
+/-- At every moment every input has been submitted at most twice (the original and at most one backup). -/
 theorem C08_at_most_two_submissions (cfg : Cfg) (ok : Nat → Bool) (n : Nat) (t0 : Int) (rounds : List Round) (h : AsIs cfg)
     (p : Nat) : submissions (stateOf (run cfg ok n t0 rounds)) p ≤ 2 := by
   have key : ∀ st w, Inv cfg ok n st w → submissions st p ≤ 2 := by
@@ -269,29 +255,15 @@ theorem C08_at_most_two_submissions (cfg : Cfg) (ok : Nat → Bool) (n : Nat) (t
     have e2 : st.tasks b = some p := by simpa using hb.2
     have e3 : st.tasks c = some p := by simpa using hc.2
     exact hi.g3 a b c ha.1 hb.1 hc.1 (e1.trans e2.symm) (e2.trans e3.symm) hab hbc hac
-  by_cases hne : cfg.batchSize = none ∨ 0 < n
-  · have hp := reach cfg ok n t0 rounds h hne
-    revert hp
-    cases run cfg ok n t0 rounds with
-    | running st => intro hp; exact key st [] hp.1
-    | finished o st =>
-      cases o with
-      | done res => intro hp; exact key st [] hp.1
-      | raised g => rintro ⟨w, rd, _, hi, _⟩; exact key st _ hi
-      | crash y => intro hp; exact hp.elim
-  · have hn : n = 0 := by
-      cases Nat.eq_zero_or_pos n with
-      | inl h0 => exact h0
-      | inr h0 => exact absurd (Or.inr h0) hne
-    subst hn
-    cases hb : cfg.batchSize with
-    | none => exact absurd (Or.inl hb) hne
-    | some bs =>
-      cases bs with
-      | zero => exact absurd hb h.2.2
-      | succ k =>
-        rw [run_empty_batched cfg ok t0 rounds k hb]
-        simp [stateOf, submissions, keys, St.empty]
+  have hp := reach cfg ok n t0 rounds h
+  revert hp
+  cases run cfg ok n t0 rounds with
+  | running st => intro hp; exact key st [] hp.1
+  | finished o st =>
+    cases o with
+    | done res => intro hp; exact key st [] hp.1
+    | raised g => rintro ⟨w, rd, _, hi, _⟩; exact key st _ hi
+    | crash y => intro hp; exact hp.elim
 
 /-- instance: input 9 was submitted exactly twice, input 0 once -/
 example : submissions (stateOf (run twinCfg (fun _ => true) 10 0 twinRounds)) 9 = 2 ∧
@@ -346,22 +318,33 @@ example : callWithRetries 2 (fun k => k == 3) = (true, 3) := by decide
 example : callWithRetries 2 (fun _ => false) = (false, 3) := by decide
 example : callWithRetries 0 (fun k => k == 2) = (false, 1) := by decide
 
+/-- The processes executor applies the same policy inside the worker (`unpickle_and_call_with_retries`): same `+ 1`, same
+default, same `retries != 0` shortcut, and `retries` is popped from the options instead of reaching the task function —
+so `C08_retry_attempts_le` / `C08_retry_spec` speak about both local executors. -/
+theorem C08_retry_same_policy_processes :
+    GeneratedC08.processesHaveRetry = true ∧ GeneratedC08.processesPopRetries = true ∧
+    GeneratedC08.procRetryExtraAttempts = GeneratedC08.retryExtraAttempts ∧
+    GeneratedC08.procDefaultRetries = GeneratedC08.defaultRetries ∧
+    GeneratedC08.procRetriesZeroSkipsWrapper = GeneratedC08.retriesZeroSkipsWrapper := by decide
+
 /-- the documented default: "up to a total of three attempts" -/
 theorem C08_default_three_attempts (succ : Nat → Bool) :
     (callWithRetries GeneratedC08.defaultRetries succ).2 ≤ 3 :=
   C08_retry_attempts_le 2 succ
 
-/-! ## what the two `fix:` commits repaired
+/-! ## what the `fix:` commits repaired
 
 The same runs under the behaviour *before* each fix (`Variant` flags off) violate the statements above.  These stay here as
 regression witnesses: the harness replays them on the real coroutine (they must NOT reproduce on the tree under test). -/
 
 /-- before the first fix: batch refill rebinds `start_times`, `should_launch_backup` then misses a key -/
-def refillOld : Cfg := { refillCfg with variant := ⟨false, true, true⟩ }
+def refillOld : Cfg := { refillCfg with variant := ⟨false, true, true, true⟩ }
 /-- before the second fix: no `superseded` set -/
-def twinOld : Cfg := { twinCfg with variant := ⟨true, false, true⟩ }
+def twinOld : Cfg := { twinCfg with variant := ⟨true, false, true, true⟩ }
+/-- before the third fix: `next(input_batches)` without a default -/
+def emptyOld : Cfg := { emptyBatched with variant := ⟨true, true, true, false⟩ }
 
-/-- `KeyError` although every task succeeds (violates `C08_no_crash_partial`) -/
+/-- `KeyError` although every task succeeds (violates `C08_no_crash`) -/
 theorem C08_witness_refill_replaced_start_times :
     outcomeOf (run refillOld (fun _ => true) 20 0 refillRounds) = some (.crash "KeyError: start_times") := by decide
 
@@ -375,5 +358,10 @@ succeeded (violates `C08_raises_only_fatal`) -/
 theorem C08_witness_twins_spurious_raise :
     outcomeOf (run twinOld (fun f => f != 10) 10 0 twinRounds) = some (.raised 10) ∧
     9 ∈ (stateOf (run twinOld (fun f => f != 10) 10 0 twinRounds)).emitted := by decide
+
+/-- an operation with zero tasks under `batch_size`: `StopIteration` inside the async generator (→ `RuntimeError`)
+instead of finishing with no results (violates `C08_no_crash`) -/
+theorem C08_witness_empty_batched_input :
+    outcomeOf (run emptyOld (fun _ => true) 0 0 []) = some (.crash "StopIteration") := by decide
 
 end Cubed.C08
